@@ -46,6 +46,7 @@ THEOREMS = [
     "Opacus.C07.computeDeltaEstimate_eq_hockey",
     "Opacus.C07.eps_triple_ordered",
     "Opacus.C07.find_epsilon_inverts_hockey_stick",
+    "Opacus.C07.safe_domain_covers",
 ]
 RULE = (
     "exact cases: (even size N, integer pmf(s), dyadic domain(s), composition counts) drawn from VERIF_SEED, non-trivial iff the pmf is "
@@ -56,7 +57,7 @@ RULE = (
 TRUSTED = [
     "SciPy rfft/irfft compute the DFT (the model specifies irfft(rfft(p)**n) as n-fold circular convolution; compared numerically on every run)",
     "SciPy erfc / quad: the closed-form cdf of the subsampled-Gaussian privacy loss and the truncated mean are handed to the model as columns",
-    "RDP accountant supplies compute_safe_domain_size (L is an input of the model)",
+    "compute_safe_domain_size is modelled as max(eps_RDP(whole history), eps_RDP(each single step), eps_error) + 3 with the RDP accountant's epsilons as inputs (their value is C06's subject)",
     "cited, not proved: Gopi-Lee-Wutschitz 2021 Thm 5.5 / Remark 5.6 (truncation + mean-matched discretisation error <= eps_error), "
     "Zhu-Dong-Wang 2022 (the remove-direction pair dominates for the Poisson-subsampled Gaussian)",
     "search oracle: own pessimistic/optimistic PLD discretisation (NumPy FFT convolutions, scipy.special.ndtr) and the exact Gaussian-mechanism formula",
@@ -400,7 +401,12 @@ def gen_history(rng, kmax=3, nmax=6, qs=(0.005, 0.01, 0.02, 0.05, 0.1, 0.3, 1.0)
     for _ in range(k):
         q = rng.choice(qs)
         sigma = round(rng.uniform(0.7, 3.0), 3) if q < 1 else round(rng.uniform(2.0, 6.0), 3)
-        h.append((sigma, q, rng.randint(1, nmax)))
+        if len(h) >= 2 and rng.random() < 0.35:
+            # a setting that recurs NON-adjacently (A, B, A): step() merges adjacent runs only
+            s0, q0, _ = rng.choice(h[:-1])
+            h.append((s0, q0, rng.randint(1, nmax)))
+        else:
+            h.append((sigma, q, rng.randint(1, nmax)))
     return h
 
 
@@ -414,6 +420,17 @@ def real_pipeline(hist, ee, de):
     prvs = [P.PoissonSubsampledGaussianPRV(q, s) for s, q, _ in hist]
     ns = [n for _, _, n in hist]
     L = P.compute_safe_domain_size(prvs=prvs, max_self_compositions=ns, eps_error=ee, delta_error=de)
+    # the RDP-accountant values compute_safe_domain_size is specified to combine (C06 owns their value)
+    from opacus.accountants import RDPAccountant
+
+    ra = RDPAccountant()
+    ra.history = [(s, q, n) for s, q, n in hist]
+    eps_all = float(ra.get_epsilon(de / 4))
+    eps_each = []
+    for s, q, _ in hist:
+        r1 = RDPAccountant()
+        r1.history = [(s, q, 1)]
+        eps_each.append(float(r1.get_epsilon(delta=de / (8 * sum(ns)))))
     dom = acct._get_domain(prvs=prvs, num_self_compositions=ns, eps_error=ee, delta_error=de)
     tprvs = [P.TruncatedPrivacyRandomVariable(p, dom.t_min, dom.t_max) for p in prvs]
     cols = []
@@ -422,7 +439,9 @@ def real_pipeline(hist, ee, de):
         cols.append((tp.cdf(tC + dom.dt / 2), tp.cdf(tC - dom.dt / 2), float(tp.mean())))
     dprvs = [P.discretize(tp, dom) for tp in tprvs]
     comp = P.compose_heterogeneous(dprvs=list(dprvs), num_self_compositions=list(ns))
-    return {"L": float(L), "dom": dom, "cols": cols, "dprvs": dprvs, "comp": comp, "ns": ns}
+    whole = acct._get_dprv(eps_error=ee, delta_error=de)   # the accountant's own assembly of the same stages
+    return {"L": float(L), "dom": dom, "cols": cols, "dprvs": dprvs, "comp": comp, "ns": ns, "whole": whole,
+            "eps_all": eps_all, "eps_each": eps_each}
 
 
 def fput(name, pmf, dom):
@@ -499,6 +518,7 @@ def run_float(ctx):
             continue
         m = {"start": len(lines)}
         tot = sum(R["ns"])
+        lines.append(f"safel {f2h(R['eps_all'])} {f2h(c['ee'])} {len(R['eps_each'])} " + " ".join(f2h(x) for x in R["eps_each"]))
         lines.append(f"domain {f2h(R['L'])} {f2h(c['ee'])} {f2h(c['de'])} {tot}")
         names = []
         for j, (cr, cl, mc) in enumerate(R["cols"]):
@@ -539,6 +559,14 @@ def run_float(ctx):
         r = rep[m["start"] : m["end"]]
         dom = R["dom"]
         bad = []
+        # compute_safe_domain_size: max(...) and + 3 are single IEEE operations ⇒ bit-for-bit
+        if r[0] != f2h(R["L"]):
+            bad.append(("safe-domain-size", r[0], f2h(R["L"])))
+        r = r[1:]
+        # PRVAccountant._get_dprv must be exactly the stages above assembled over ITS history
+        wp, wd = [float(x) for x in R["whole"].pmf], dom_tuple(R["whole"].domain)
+        if wp != [float(x) for x in R["comp"].pmf] or wd != dom_tuple(R["comp"].domain):
+            bad.append(("get_dprv-assembly", "staged pipeline over the history", "accountant._get_dprv differs from its own stages"))
         # _get_domain
         if r[0].startswith("err"):
             bad.append(("domain", r[0], dom_tuple(dom)))
